@@ -1,6 +1,13 @@
 package main
 
-import "encoding/json"
+import (
+	"encoding/json"
+	"sync/atomic"
+)
+
+var idCounter atomic.Int64
+
+func nextID() int64 { return idCounter.Add(1) }
 
 func remarshal(in any, out any) {
 	b, _ := json.Marshal(in)
